@@ -241,7 +241,10 @@ class Report:
             "obligation_table": [self._sample(o) for o in self.obls],
         }
         os.makedirs(os.path.join(VERIF, "evidence"), exist_ok=True)
-        path = os.path.join(VERIF, "evidence", self.prop + (".partial.json" if self.partial else ".json"))
+        mutant = os.environ.get("VERIF_MUTANT")      # detection runs against a seeded change: never touch the committed evidence
+        path = os.path.join(VERIF, "evidence", self.prop + (".partial.json" if (self.partial or mutant) else ".json"))
+        if mutant:
+            path = os.path.join(VERIF, "evidence", "%s.mutant-%s.partial.json" % (self.prop, mutant))
         if self.partial:
             ev["partial_run"] = True
             log("NOTE: filtered run (--only): evidence written to %s, evidence/%s.json left untouched" % (path, self.prop))
